@@ -210,6 +210,20 @@ def run(tier, seed):
     cases = []
     ntilt = 12 if tier == "quick" else 120
     tilts = [((1, 0, 1), (1, 0, 1), (1, 0, 1))] + [tuple(rng.choice(TILT) for _ in range(3)) for _ in range(ntilt)]
+    # tilts of a few milliradians about one axis (what a detector calibration actually yields): cos(tilt) differs from 1 by 2e-6..8e-6,
+    # below the default tolerances of numpy.isclose - an "untilted" shortcut would be taken
+    Z = (1, 0, 1)
+    for n_ in (500, 1000, 250):
+        tiny = (n_ * n_ - 1, 2 * n_, n_ * n_ + 1)
+        for sgn in (1, -1):
+            t_ = (tiny[0], sgn * tiny[1], tiny[2])
+            tilts += [(Z, t_, Z), (Z, Z, t_), (t_, Z, Z)]
+    small = tilts[-18:]
+    for tth in TTH:
+        for eta in rng.sample(A, 3):
+            for (tx, ty, tz) in rng.sample(small, 4 if tier == "quick" else 18):
+                cases.append({"tx": list(tx), "ty": list(ty), "tz": list(tz), "tth": list(tth), "eta": list(eta)})
+    tilts = tilts[:-18]
     for tth in TTH:
         for eta in rng.sample(A, 14 if tier == "quick" else 30) + [(1, 0, 1)]:
             for (tx, ty, tz) in rng.sample(tilts, 10 if tier == "quick" else 60):
